@@ -494,6 +494,27 @@ func (e *SpecEnv) call(n SCall) *Val {
 			sfail("global(\"pkg.Name\")")
 		}
 		return &Val{K: VStr, T: Const("glob:"+e.x.P.resolveGlobal(e.pkg, s.S), SStr)}
+	case "accType":
+		// type id stored in $accTag for "base" | "cva" | "module" accounts
+		s, ok := n.Args[0].(SStrLit)
+		if !ok {
+			sfail("accType(\"base\"|\"cva\"|\"module\")")
+		}
+		at := e.x.authTypes()
+		var t types.Type
+		switch s.S {
+		case "base":
+			t = at.base
+		case "cva":
+			t = at.cva
+		case "module":
+			t = at.mod
+		default:
+			sfail("accType: unknown kind %s", s.S)
+		}
+		return &Val{K: VInt, T: Num(int64(typeID(types.NewPointer(t))))}
+	case "zeroCoins":
+		return &Val{K: VCoins, T: zeroCoinsT}
 	case "storeOf":
 		// name of the KV store opened with the given store key (interface value)
 		v := e.eval(n.Args[0])
